@@ -9,9 +9,9 @@ import Nebula.Spec.Dns
 namespace Nebula.Driver.Dns
 open Nebula.Driver Nebula.Net Nebula.Dns
 
-def bytesStr (bs : List UInt8) : String := String.ofList (bs.map (fun b => Char.ofNat b.toNat))
-def strHex (s : String) : String := bytesToHex (s.toList.map (fun c => UInt8.ofNat c.toNat))
-def strArg (s : String) : Option String := (hexToBytes s).map bytesStr
+def bytesStr (bs : List UInt8) : Name := bs.map (fun b => Char.ofNat b.toNat)
+def strHex (s : Name) : String := bytesToHex (s.map (fun c => UInt8.ofNat c.toNat))
+def strArg (s : String) : Option Name := (hexToBytes s).map bytesStr
 
 def addrsArg (s : String) : Option (List Addr) :=
   if s == "-" then some [] else (s.splitOn ",").mapM parseAddr
